@@ -31,6 +31,13 @@ func checkC13(c *Ctx) {
 	r.Rule("R13.6", "dumped keys are the stored (private) keys; GobRegister registers the given value itself with encoding/gob", 3)
 	r.NotDecided = []string{"encoding/gob's own behaviour", "round-trip equality of values", "partial import on a broken stream"}
 	c.withAlias(map[string]string{"R10.5": "R13.5"}, func() { c.c10TsInverse() })
+	// a restored entry reads back as it did in the source: Read classifies by the entry's own E and the clock only — not by
+	// instance-level bookkeeping that Restore does not maintain (C07 R07.2)
+	c.borrow("C07", func() {
+		for _, b := range backends {
+			c.c07Read(b)
+		}
+	}, func(o *coreObl) (string, bool) { return "R13.5", o.Rule == "R07.2" })
 	// R13.6: what is dumped is what the cache holds and what gob was told about: stored keys are private copies (a dump must
 	// not carry keys the caller rewrote afterwards) and GobRegister registers the very value it was given — every distinct type:
 	// the already-registered test is keyed by the reflect.Type itself (a coarser key, e.g. its printed name, silently skips a
@@ -40,8 +47,9 @@ func checkC13(c *Ctx) {
 			c.c09WriteCopies(b)
 		}
 	}, func(o *coreObl) (string, bool) { return "R13.6", o.Rule == "R09.2" })
+	c.borrow("C14", func() { c.c14InitRegistration() }, func(o *coreObl) (string, bool) { return "R13.6", o.Rule == "R14.3" })
 	c.borrow("C14", func() { c.c14Register() }, func(o *coreObl) (string, bool) {
-		return "R13.6", o.Rule == "R14.3" && o.Construct == "GobRegister" && (o.Status == "discharged" || strings.HasPrefix(o.What, "not-registered-with-gob") || strings.HasPrefix(o.What, "no-dedupe-test") || strings.HasPrefix(o.What, "dedupe-untested"))
+		return "R13.6", o.Rule == "R14.3" && o.Construct == "GobRegister" && (o.Status == "discharged" || strings.HasPrefix(o.What, "not-registered-with-gob") || strings.HasPrefix(o.What, "no-dedupe-test") || strings.HasPrefix(o.What, "dedupe-untested") || strings.HasPrefix(o.What, "unpaired-update"))
 	})
 	for _, b := range backends {
 		// R13.1 -------------------------------------------------------------------------------
@@ -179,6 +187,28 @@ func checkC13(c *Ctx) {
 			}
 			if nEnc == 0 {
 				encodesParam = false
+			}
+			// every entry handed to Dump's callback is encoded: no iteration that entered the callback ends without an Encode
+			skipped := false
+			for _, p := range dump.paths {
+				for _, g := range iterations(p) {
+					if !g.inner || skipped {
+						continue
+					}
+					entered, enc := false, 0
+					for _, ev := range g.events {
+						if ev.Kind == pw.EvEnter && ev.FnLit != nil && ev.Frame != nil && !ev.Frame.Deferred {
+							entered = true
+						}
+						if ev.Kind == pw.EvCall && ev.Role == "Std:gob.Encoder.Encode" {
+							enc++
+						}
+					}
+					if entered && enc == 0 {
+						skipped = true
+						r.Bad("R13.3", b.Wrapper+".Dump", "dump-skips-entry", c.Pos(g.begin.Pos), "an entry handed to Dump's callback is not encoded: the dump silently leaves entries out", shortTrace(p))
+					}
+				}
 			}
 		}
 		cons := b.Wrapper + ".Dump/Restore"
